@@ -22,11 +22,16 @@ theorem applyAfterSym_length {a : Arch} {c : RelCfg} {rela : Bool} {s : Nat} {se
       | none => simp [hps] at h
       | some wf =>
         obtain ⟨w, fm⟩ := wf
-        simp only [hps, decide_eq_true_eq] at hfit h
+        simp only [hps, Bool.or_eq_true, beq_iff_eq, decide_eq_true_eq] at hfit h
         split at h
         · cases h; rfl
-        · cases h
-          exact (writeField_frame _ _ _ _ _ (by split at hfit <;> omega)).1
+        · rename_i hk
+          cases h
+          have hin : e.offset + w ≤ sec.length := by
+            rcases hfit with h' | h'
+            · exact absurd h' hk
+            · exact h'
+          exact (writeField_frame _ _ _ _ _ hin).1
 
 theorem applyLoop_eq_std (cfg : ElfCfg) (hcls : cfg.cls = 32 ∨ cfg.cls = 64) (env : Env) (a : Arch)
     (hm : (relCfgOf cfg).mips = decide (a = .mips)) (rela : Bool) (es : List RelEntry) (syms : List Nat) (L : Nat)
@@ -48,7 +53,7 @@ theorem applyLoop_eq_std (cfg : ElfCfg) (hcls : cfg.cls = 32 ∨ cfg.cls = 64) (
     intro e he
     have := hwf e he
     simp only [WFApplyOne, Bool.and_eq_true] at this
-    exact this.1.1.1
+    exact this.1.1
   intro count
   induction count with
   | zero =>
